@@ -245,6 +245,15 @@ func QuantileCI(n int, q, confidence float64) QuantileCIResult {
 		cdf := func(l, r int) float64 {
 			return norm.CDF(float64(r)-0.5) - norm.CDF(float64(l)-0.5)
 		}
+		// InvCDF is only accurate to rounding error, so l1
+		// can land exactly on a band boundary that the true
+		// quantile lies just below, and the rounded band then
+		// falls short of the requested confidence by a few
+		// ulps. Widen it until it does not.
+		for cdf(l, r) < confidence && (l > 0 || r < n+1) {
+			l--
+			r++
+		}
 		res.Confidence = cdf(l, r)
 		// The computed interval is always symmetric.
 		// Try left-biasing it and see if we can do
